@@ -160,7 +160,7 @@ def run(tier):
     # ---- TLC judges (in slices: a case file stays well below 40 MB) ----------------------------------------------------
     drift = collections.Counter()
     nfail = 0
-    step = 6000
+    step = 3000
     for lo in range(0, len(cases), step):
         part = cases[lo:lo + step]
         r, fails = tlc.judge('basic', 'BasicCases', 'BasicCases.cfg', [slim(c) for c in part], casefile=os.path.join(wd, 'cases%d.json' % lo),
